@@ -62,6 +62,13 @@ def gen_circular(rng):
                 cs.append(("AvoidChanges", kw(location=rloc(rng, n, strands=(0,), minlen=8), max_edits=rng.choice([1, 2]))))
             else:
                 cs.append(("AvoidChanges", kw(location=rloc(rng, n, strands=(0,), minlen=3))))
+    if rng.random() < 0.15:
+        # an occurrence frozen by AvoidChanges near the origin: nothing can be edited there
+        pat = rng.choice(["CGTCTC", "GGTCTC", "GAATTC"])
+        m = rng.choice([12, 20])
+        a = rng.randint(0, 4)
+        seq[a:a + len(pat)] = pat
+        cs = [("AvoidPattern", kw(pattern=pat, location=(0, m, 0))), ("AvoidChanges", kw(location=(0, m, 0)))]
     out = []
     for c in cs:
         if c not in out:
@@ -127,6 +134,14 @@ def impl_case(case):
                 if d[0] == "AvoidPattern" and whole(kwd, len(s))[0] and set(kwd["pattern"]) <= set("ACGT"):
                     if wrap_occ(s, kwd["pattern"], whole(kwd, len(s))[1]):
                         bad.append("pattern %s occurs in the circular sequence (strand %s)" % (kwd["pattern"], whole(kwd, len(s))[1]))
+                if d[0] == "AvoidPattern" and not whole(kwd, len(s))[0] and set(kwd["pattern"]) <= set("ACGT"):
+                    a_, b_, st_ = kwd["location"]
+                    pat_ = kwd["pattern"]
+                    for i in range(a_, b_ - len(pat_) + 1):
+                        w_ = s[i:i + len(pat_)]
+                        if (st_ != -1 and w_ == pat_) or (st_ != 1 and w_ == rcs(pat_)):
+                            bad.append("pattern %s occurs at %d inside its location %d-%d" % (pat_, i, a_, b_))
+                            break
                 if d[0] == "AvoidChanges" and kwd.get("max_edits"):
                     a_, b_ = kwd["location"][0], kwd["location"][1]
                     edits = sum(1 for i in range(a_, b_) if start[i] != s[i])
